@@ -458,3 +458,346 @@ Theorem C15_onstore_str_example_by_theorem :
     K.go_ExportGenesis w1 = Ok exs_doc /\ S.go_ExportGenesis exg_unemb exg_ws1 = Ok exg_doc1 /\ exs_doc <> exg_doc1.
 Proof. exact os_genesis_ex_by_theorem. Qed.
 Print Assumptions C15_onstore_str_example_by_theorem.
+
+(* ------------------------------------------------------------------ *)
+(* 7. ALONG ANY HISTORY of the on-store message server                  *)
+(* ------------------------------------------------------------------ *)
+(* The three side conditions of the byte-identical round trip are INVARIANTS of the on-store message server
+   (S.go_CreateStream, S.go_ClaimStream, S.go_TopUpDeposit, S.go_UpdateFlowRate, S.go_CancelStream, S.go_UpdateParams;
+   DeliverTx [s_deliver] and histories [s_run] of proofs/GeneratedStreamOnStoreEq.v: C10_onstore_.. theorems).
+     store_ok s    module_keys s, and the Params cell of s holds parameters whose fee validates
+                   (C15_onstore_str_run_vocabulary_spelled).  On related worlds it gives the two hypotheses on the Params
+                   cell of C15_onstore_str_roundtrip_bytes.
+     keeps Q c     the store of the world the computation c returns has Q; nothing is said when c fails - an outcome
+                   Err / Panic carries no world: the runner of histories keeps the world the message was started in
+                   ([s_step], spelled out below), so the store is the one the message found
+                   (C15_onstore_str_run_store_ok_deliver, second case).
+   The rendering writes the byte store through three adapters only: os_str_SetStream (okv_set at GetStreamKey =
+   0x11 ++ length-prefixed receiver ++ length-prefixed sender), os_str_DeleteStream (okv_del at that key) and
+   os_str_SetParams (okv_set at the Params key 0x01, after Params.Validate): a property of stores closed under these
+   three writes is kept by every message (C15_onstore_str_run_closed_property_deliver, _run), and module_keys / store_ok are closed
+   under them (C15_onstore_str_run_writes_module_keys, _store_ok).  NO hypothesis on the messages (addresses in dom or not, valid or not) or
+   on the world is needed for the invariants.  The round trip needs the addresses of the history in dom: it goes through
+   the simulation C10_onstore_histories (Rw at the end of the run).
+   For the re-import to GO THROUGH over the final bank (C15_onstore_str_run_roundtrip_total) in addition:
+     str_inv now b st    the invariant of rendering (1) / the model (escrow backed, storable times, fee in range, ...;
+                         model/StreamSpec.v) at the start - kept along histories by C10_onstore_reachable,
+     bank_wf b           one row per (account, denomination) - kept by the message server (C15_onstore_str_run_bank_wf),
+     ktimes_sorted       block times do not decrease and are storable, signers are ordinary accounts (C10_onstore_.. theorems).
+   Proofs: proofs/GeneratedStreamGenesisOnStoreRun.v. *)
+From MC Require Import proofs.GeneratedStreamGenesisOnStoreRun.
+
+Theorem C15_onstore_str_run_vocabulary_spelled :
+  (forall (Q : okv stream_val -> Prop) (c : outcome (sworld * kresp)),
+     keeps Q c <-> match c with Ok (w', _) => Q (sw_store w') | Err _ | Panic _ => True end) /\
+  (forall s : okv stream_val, store_ok s <->
+     (forall k v, In (k, v) s -> k = stream_ParamsKey \/ is_prefix stream_StreamKeyPrefix k = true) /\
+     exists p, okv_get s stream_ParamsKey = Some (SV_Params p) /\ str_params_valid (Params_ValidatorFee p) = true) /\
+  (forall t m ws, s_step t m ws = match s_deliver (sw_at t ws) m with Ok (ws', _) => ws' | Err _ | Panic _ => sw_at t ws end) /\
+  (forall t ws, sw_at t ws = mk_sworld (sw_emb ws) t (sw_bank ws) (sw_store ws)) /\
+  (forall ws t m h, snd (s_run ws ((t, m) :: h)) = snd (s_run (s_step t m ws) h)) /\
+  (forall ws, snd (s_run ws []) = ws) /\
+  (forall r sn, skey r sn = str_encode (SkStream r sn)) /\
+  (forall r sn, skey r sn = 17%N :: length_prefix r ++ length_prefix sn) /\
+  stream_ParamsKey = [1%N] /\ stream_StreamKeyPrefix = [17%N].
+Proof. exact run_vocabulary_spelled. Qed.
+Print Assumptions C15_onstore_str_run_vocabulary_spelled.
+
+(* each of the three writes writes a module key ... *)
+Theorem C15_onstore_str_run_writes_module_keys :
+  (forall (s : okv stream_val) r sn x, module_keys s -> module_keys (okv_set s (skey r sn) (SV_Stream x))) /\
+  (forall (s : okv stream_val) k0, module_keys s -> module_keys (okv_del s k0)) /\
+  (forall (s : okv stream_val) p, module_keys s -> module_keys (okv_set s stream_ParamsKey (SV_Params p))).
+Proof. exact writes_module_keys. Qed.
+Print Assumptions C15_onstore_str_run_writes_module_keys.
+
+(* ... and keeps a Params cell that validates: a stream write or delete does not touch it, SetParams validates *)
+Theorem C15_onstore_str_run_writes_store_ok :
+  (forall (s : okv stream_val) r sn x, store_ok s -> store_ok (okv_set s (skey r sn) (SV_Stream x))) /\
+  (forall (s : okv stream_val) r sn, store_ok s -> store_ok (okv_del s (skey r sn))) /\
+  (forall (s : okv stream_val) p, str_params_valid (Params_ValidatorFee p) = true -> store_ok s ->
+     store_ok (okv_set s stream_ParamsKey (SV_Params p))).
+Proof. exact writes_store_ok. Qed.
+Print Assumptions C15_onstore_str_run_writes_store_ok.
+
+(* the message server writes the store in these three ways ONLY: whatever property of stores they keep, DeliverTx of any
+   message of the six kinds on any world keeps, and so does any history *)
+Theorem C15_onstore_str_run_closed_property_deliver :
+  forall Q : okv stream_val -> Prop,
+  (forall s r sn x, Q s -> Q (okv_set s (skey r sn) (SV_Stream x))) ->
+  (forall s r sn, Q s -> Q (okv_del s (skey r sn))) ->
+  (forall s p, str_params_valid (Params_ValidatorFee p) = true -> Q s -> Q (okv_set s stream_ParamsKey (SV_Params p))) ->
+  forall (w : sworld) (m : kmsg), Q (sw_store w) -> keeps Q (s_deliver w m).
+Proof. exact keeps_deliver. Qed.
+Print Assumptions C15_onstore_str_run_closed_property_deliver.
+
+Theorem C15_onstore_str_run_closed_property_run :
+  forall Q : okv stream_val -> Prop,
+  (forall s r sn x, Q s -> Q (okv_set s (skey r sn) (SV_Stream x))) ->
+  (forall s r sn, Q s -> Q (okv_del s (skey r sn))) ->
+  (forall s p, str_params_valid (Params_ValidatorFee p) = true -> Q s -> Q (okv_set s stream_ParamsKey (SV_Params p))) ->
+  forall (h : list (Z * kmsg)) (ws : sworld), Q (sw_store ws) -> Q (sw_store (snd (s_run ws h))).
+Proof. exact keeps_run. Qed.
+Print Assumptions C15_onstore_str_run_closed_property_run.
+
+(* module_keys: one message at any block time - Ok: the new store has it; Err or Panic: the store is the old one *)
+Theorem C15_onstore_str_run_module_keys_deliver :
+  forall (t : Z) (ws : sworld) (m : kmsg), module_keys (sw_store ws) ->
+  match s_deliver (sw_at t ws) m with
+  | Ok (ws', _) => module_keys (sw_store ws') /\ s_step t m ws = ws'
+  | Err _ | Panic _ => sw_store (s_step t m ws) = sw_store ws
+  end.
+Proof. exact module_keys_deliver. Qed.
+Print Assumptions C15_onstore_str_run_module_keys_deliver.
+
+Theorem C15_onstore_str_run_module_keys_run :
+  forall (h : list (Z * kmsg)) (ws : sworld), module_keys (sw_store ws) -> module_keys (sw_store (snd (s_run ws h))).
+Proof. exact module_keys_run. Qed.
+Print Assumptions C15_onstore_str_run_module_keys_run.
+
+(* store_ok (module_keys + a Params cell that validates): the same *)
+Theorem C15_onstore_str_run_store_ok_deliver :
+  forall (t : Z) (ws : sworld) (m : kmsg), store_ok (sw_store ws) ->
+  match s_deliver (sw_at t ws) m with
+  | Ok (ws', _) => store_ok (sw_store ws') /\ s_step t m ws = ws'
+  | Err _ | Panic _ => sw_store (s_step t m ws) = sw_store ws
+  end.
+Proof. exact store_ok_deliver. Qed.
+Print Assumptions C15_onstore_str_run_store_ok_deliver.
+
+Theorem C15_onstore_str_run_store_ok_step :
+  forall (t : Z) (m : kmsg) (ws : sworld), store_ok (sw_store ws) -> store_ok (sw_store (s_step t m ws)).
+Proof. exact store_ok_step. Qed.
+Print Assumptions C15_onstore_str_run_store_ok_step.
+
+Theorem C15_onstore_str_run_store_ok_run :
+  forall (h : list (Z * kmsg)) (ws : sworld), store_ok (sw_store ws) -> store_ok (sw_store (snd (s_run ws h))).
+Proof. exact store_ok_run. Qed.
+Print Assumptions C15_onstore_str_run_store_ok_run.
+
+(* the six handlers of the message server, one by one, on any message *)
+Theorem C15_onstore_str_run_store_ok_msg_server :
+  forall ws : sworld, store_ok (sw_store ws) ->
+  (forall msg, keeps store_ok (S.go_CreateStream ws msg)) /\
+  (forall msg, keeps store_ok (S.go_ClaimStream ws msg)) /\
+  (forall msg, keeps store_ok (S.go_TopUpDeposit ws msg)) /\
+  (forall msg, keeps store_ok (S.go_UpdateFlowRate ws msg)) /\
+  (forall msg, keeps store_ok (S.go_CancelStream ws msg)) /\
+  (forall req, keeps store_ok (S.go_UpdateParams ws req)).
+Proof. exact store_ok_msg_server. Qed.
+Print Assumptions C15_onstore_str_run_store_ok_msg_server.
+
+(* the store InitGenesis builds from the empty one, for a document whose fee validates *)
+Theorem C15_onstore_str_run_store_ok_import :
+  forall (em : Z -> list N) (d : go_GenesisState),
+  str_params_valid (Params_ValidatorFee (GenesisState_Params d)) = true -> store_ok (s_import em d []).
+Proof. exact store_ok_import. Qed.
+Print Assumptions C15_onstore_str_run_store_ok_import.
+
+(* THE ROUND TRIP ALONG ANY HISTORY, from related worlds whose store is store_ok: after any history of the six message
+   kinds with addresses in dom, the byte store exports; the document, imported into the empty store at any clock over
+   any bank for which InitGenesis returns, gives the very same bytes, which export to the same document *)
+Theorem C15_onstore_str_run_roundtrip_bytes :
+  forall (dom : Z -> Prop) (emb : Z -> list N),
+  (forall a, dom a -> (1 <= length (emb a) <= 255)%nat) ->
+  (forall a b, dom a -> dom b -> emb a = emb b -> a = b) ->
+  forall unemb : list N -> Z, (forall a, dom a -> unemb (emb a) = a) ->
+  forall (h : list (Z * kmsg)) (w : kworld) (ws : sworld),
+  Rw dom emb w ws -> store_ok (sw_store ws) ->
+  Forall (fun tm => kmsg_dom dom (snd tm)) h ->
+  let ws1 := snd (s_run ws h) in
+  store_ok (sw_store ws1) /\
+  exists d, S.go_ExportGenesis unemb ws1 = Ok d /\
+    forall now' b' ws2, S.go_InitGenesis (empty_sworld emb now' b') d = Ok (ws2, tt) ->
+      sw_store ws2 = sw_store ws1 /\ S.go_ExportGenesis unemb ws2 = Ok d.
+Proof. exact os_run_roundtrip_bytes. Qed.
+Print Assumptions C15_onstore_str_run_roundtrip_bytes.
+
+(* FROM GENESIS: any document with addresses in dom and a fee that validates, imported into the empty byte store (any
+   clock, any bank for which InitGenesis returns), then ANY history run by the on-store message server *)
+Theorem C15_onstore_str_genesis_run_roundtrip :
+  forall (dom : Z -> Prop) (emb : Z -> list N),
+  (forall a, dom a -> (1 <= length (emb a) <= 255)%nat) ->
+  (forall a b, dom a -> dom b -> emb a = emb b -> a = b) ->
+  forall unemb : list N -> Z, (forall a, dom a -> unemb (emb a) = a) ->
+  forall (now : Z) (b : bank) (d0 : go_GenesisState) (ws0 : sworld) (h : list (Z * kmsg)),
+  doc_dom dom d0 -> str_params_valid (Params_ValidatorFee (GenesisState_Params d0)) = true ->
+  S.go_InitGenesis (empty_sworld emb now b) d0 = Ok (ws0, tt) ->
+  Forall (fun tm => kmsg_dom dom (snd tm)) h ->
+  let ws1 := snd (s_run ws0 h) in
+  store_ok (sw_store ws1) /\
+  exists d, S.go_ExportGenesis unemb ws1 = Ok d /\
+    forall now' b' ws2, S.go_InitGenesis (empty_sworld emb now' b') d = Ok (ws2, tt) ->
+      sw_store ws2 = sw_store ws1 /\ S.go_ExportGenesis unemb ws2 = Ok d.
+Proof. exact os_genesis_run_roundtrip. Qed.
+Print Assumptions C15_onstore_str_genesis_run_roundtrip.
+
+(* ---- the re-import over the final bank goes through ---- *)
+
+(* one row per (account, denomination): kept by any history, on any world *)
+Theorem C15_onstore_str_run_bank_wf :
+  forall (h : list (Z * kmsg)) (ws : sworld), bank_wf (sw_bank ws) -> bank_wf (sw_bank (snd (s_run ws h))).
+Proof. exact bank_wf_run. Qed.
+Print Assumptions C15_onstore_str_run_bank_wf.
+
+(* rendering (1) imports any REORDERING of the document it would export (the byte store lists in key order) *)
+Theorem C15_onstore_str_import_reordered :
+  forall (w : kworld) (now0 now' vf0 : Z) (d : go_GenesisState),
+  str_inv now0 (kw_bank w) (kw_str w) -> bank_wf (kw_bank w) ->
+  GenesisState_Params d = mk_go_Params (s_valfee (kw_str w)) ->
+  Permutation (GenesisState_Streams d) (str_AllStreams w) ->
+  K.go_InitGenesis (fresh_kworld now' (kw_bank w) vf0) d =
+    Ok (with_str (fresh_kworld now' (kw_bank w) vf0) (import_go d (fresh_str vf0)), tt).
+Proof. exact gen_str_import_reordered. Qed.
+Print Assumptions C15_onstore_str_import_reordered.
+
+(* the document the byte store exports imports into the empty store over the same bank, at any clock *)
+Theorem C15_onstore_str_export_imports :
+  forall (dom : Z -> Prop) (emb : Z -> list N),
+  (forall a, dom a -> (1 <= length (emb a) <= 255)%nat) ->
+  (forall a b, dom a -> dom b -> emb a = emb b -> a = b) ->
+  forall unemb : list N -> Z, (forall a, dom a -> unemb (emb a) = a) ->
+  forall (w : kworld) (ws : sworld) (now0 now' : Z) (d : go_GenesisState),
+  Rw dom emb w ws -> str_inv now0 (kw_bank w) (kw_str w) -> bank_wf (sw_bank ws) ->
+  S.go_ExportGenesis unemb ws = Ok d ->
+  exists ws2, S.go_InitGenesis (empty_sworld emb now' (sw_bank ws)) d = Ok (ws2, tt) /\ sw_bank ws2 = sw_bank ws /\
+              sw_now ws2 = now'.
+Proof. exact os_export_imports. Qed.
+Print Assumptions C15_onstore_str_export_imports.
+
+(* along any history inside the invariant: export, re-import over the final bank at any clock - it goes through; the
+   very same bytes, the same bank, the same document again *)
+Theorem C15_onstore_str_run_roundtrip_total :
+  forall (dom : Z -> Prop) (emb : Z -> list N),
+  (forall a, dom a -> (1 <= length (emb a) <= 255)%nat) ->
+  (forall a b, dom a -> dom b -> emb a = emb b -> a = b) ->
+  forall unemb : list N -> Z, (forall a, dom a -> unemb (emb a) = a) ->
+  forall (h : list (Z * kmsg)) (now0 now' : Z) (w : kworld) (ws : sworld),
+  Rw dom emb w ws -> store_ok (sw_store ws) ->
+  str_inv now0 (kw_bank w) (kw_str w) -> bank_wf (sw_bank ws) ->
+  ktimes_sorted now0 h -> Forall (fun tm => kmsg_dom dom (snd tm)) h ->
+  let ws1 := snd (s_run ws h) in
+  exists d ws2, S.go_ExportGenesis unemb ws1 = Ok d /\
+    S.go_InitGenesis (empty_sworld emb now' (sw_bank ws1)) d = Ok (ws2, tt) /\
+    sw_store ws2 = sw_store ws1 /\ sw_bank ws2 = sw_bank ws1 /\ sw_now ws2 = now' /\
+    S.go_ExportGenesis unemb ws2 = Ok d.
+Proof. exact os_run_roundtrip_total. Qed.
+Print Assumptions C15_onstore_str_run_roundtrip_total.
+
+(* FROM GENESIS: the document describes a state inside the invariant at the genesis time (import_go d0 (fresh_str 0):
+   its fee, its entries in document order), over a bank with one row per (account, denomination) *)
+Theorem C15_onstore_str_genesis_run_roundtrip_total :
+  forall (dom : Z -> Prop) (emb : Z -> list N),
+  (forall a, dom a -> (1 <= length (emb a) <= 255)%nat) ->
+  (forall a b, dom a -> dom b -> emb a = emb b -> a = b) ->
+  forall unemb : list N -> Z, (forall a, dom a -> unemb (emb a) = a) ->
+  forall (now : Z) (b : bank) (d0 : go_GenesisState) (ws0 : sworld) (h : list (Z * kmsg)) (now' : Z),
+  doc_dom dom d0 -> str_inv now b (import_go d0 (fresh_str 0)) -> bank_wf b ->
+  S.go_InitGenesis (empty_sworld emb now b) d0 = Ok (ws0, tt) ->
+  ktimes_sorted now h -> Forall (fun tm => kmsg_dom dom (snd tm)) h ->
+  let ws1 := snd (s_run ws0 h) in
+  exists d ws2, S.go_ExportGenesis unemb ws1 = Ok d /\
+    S.go_InitGenesis (empty_sworld emb now' (sw_bank ws1)) d = Ok (ws2, tt) /\
+    sw_store ws2 = sw_store ws1 /\ sw_bank ws2 = sw_bank ws1 /\ sw_now ws2 = now' /\
+    S.go_ExportGenesis unemb ws2 = Ok d.
+Proof. exact os_genesis_run_roundtrip_total. Qed.
+Print Assumptions C15_onstore_str_genesis_run_roundtrip_total.
+
+(* ---- a concrete run from a genesis store (the embedding of C15_onstore_str_example_setup) ---- *)
+Theorem C15_onstore_str_run_example_setup :
+  exr_bank = {| bal := [((STREAM_MACC, 1), 70); ((11, 0), 1000); ((13, 0), 200000); ((STREAM_MACC, 0), 500)];
+                supply := [(0, 201500); (1, 70)] |} /\
+  (forall secs, exr_t secs = secs * NSEC) /\
+  exr_doc = mk_go_GenesisState exs_params
+    [ mk_go_StreamExport 10 11 (mk_go_Stream (0, 500) 10 (exr_t 1000) (exr_t 1050) true);
+      mk_go_StreamExport 12 11 (mk_go_Stream (1, 70) 10 (exr_t 1000) (exr_t 1007) true) ] /\
+  exr_hist =
+    [ (exr_t 1010, KStr (SCreate 13 10 0 100000 100));
+      (exr_t 1020, KStr (SClaim 11 10));
+      (exr_t 1030, KStr (STopUp 11 10 0 300));
+      (exr_t 1035, KStr (SClaim 13 12));
+      (exr_t 1040, KStr (SCancel 11 12));
+      (exr_t 1045, KUpdateParams (mk_go_MsgUpdateParams 11 (mk_go_Params 20000000000000000)));
+      (exr_t 1050, KUpdateParams (mk_go_MsgUpdateParams GOV_MACC (mk_go_Params 20000000000000000))) ] /\
+  exr_ws1 = snd (s_run exr_ws0 exr_hist) /\
+  exr_doc1 = mk_go_GenesisState (mk_go_Params 20000000000000000)
+    [ mk_go_StreamExport 10 11 (mk_go_Stream (0, 600) 10 (exr_t 1020) (exr_t 1080) true);
+      mk_go_StreamExport 10 13 (mk_go_Stream (0, 100000) 100 (exr_t 1010) (exr_t 2010) true) ].
+Proof. exact exr_setup. Qed.
+Print Assumptions C15_onstore_str_run_example_setup.
+
+(* by computation: a genesis document with two streams; seven messages (create, claim, top-up, a refused claim, cancel,
+   a refused and an accepted UpdateParams); the store before and after; export; re-import over the final bank at
+   another clock: the very same bytes, the same document *)
+Theorem C15_onstore_str_run_example :
+  S.go_InitGenesis (empty_sworld exg_emb (exr_t 1000) exr_bank) exr_doc = Ok (exr_ws0, tt) /\
+  fst (s_run exr_ws0 exr_hist) =
+    [ Ok (KRStr RNone);
+      Ok (KRStr (RClaim {| cr_receiver := 198; cr_fee := 2; cr_total := 200; cr_remaining := 300 |}));
+      Ok (KRStr (RTopUp 600 (exr_t 1080)));
+      Err ERR_INVALID_DATA;
+      Ok (KRStr RNone);
+      Err 42;
+      Ok KRParams ] /\
+  map (fun kv => length (fst kv)) (sw_store exr_ws0) = [1; 5; 24]%nat /\
+  map (fun kv => length (fst kv)) (sw_store exr_ws1) = [1; 5; 36]%nat /\
+  S.go_ExportGenesis exg_unemb exr_ws1 = Ok exr_doc1 /\
+  (exists ws2, S.go_InitGenesis (empty_sworld exg_emb 7 (sw_bank exr_ws1)) exr_doc1 = Ok (ws2, tt) /\
+               sw_store ws2 = sw_store exr_ws1 /\ S.go_ExportGenesis exg_unemb ws2 = Ok exr_doc1).
+Proof. exact os_genesis_run_ex. Qed.
+Print Assumptions C15_onstore_str_run_example.
+
+(* the same through the theorems: every hypothesis above is met by this run *)
+Theorem C15_onstore_str_run_example_by_theorem :
+  doc_dom exg_dom exr_doc /\
+  str_params_valid (Params_ValidatorFee (GenesisState_Params exr_doc)) = true /\
+  Forall (fun tm => kmsg_dom exg_dom (snd tm)) exr_hist /\
+  str_inv (exr_t 1000) exr_bank (import_go exr_doc (fresh_str 0)) /\ bank_wf exr_bank /\
+  ktimes_sorted (exr_t 1000) exr_hist /\
+  store_ok (sw_store exr_ws0) /\ store_ok (sw_store exr_ws1) /\
+  (forall now' b' ws2, S.go_InitGenesis (empty_sworld exg_emb now' b') exr_doc1 = Ok (ws2, tt) ->
+     sw_store ws2 = sw_store exr_ws1 /\ S.go_ExportGenesis exg_unemb ws2 = Ok exr_doc1) /\
+  (forall now', exists ws2, S.go_InitGenesis (empty_sworld exg_emb now' (sw_bank exr_ws1)) exr_doc1 = Ok (ws2, tt) /\
+     sw_store ws2 = sw_store exr_ws1 /\ sw_bank ws2 = sw_bank exr_ws1 /\ sw_now ws2 = now' /\
+     S.go_ExportGenesis exg_unemb ws2 = Ok exr_doc1).
+Proof. exact os_genesis_run_ex_by_theorem. Qed.
+Print Assumptions C15_onstore_str_run_example_by_theorem.
+
+(* the addresses of the history must be in dom: an embedding as required ON dom = 0..255 (one byte per account) that
+   sends account 300 to two bytes unemb does not read back.  A stream created by 300 sits under a key the exported
+   document does not spell; the re-import goes through and builds OTHER bytes.  (The invariants store_ok / module_keys
+   hold of this run too: they need no hypothesis on the messages.) *)
+Theorem C15_onstore_str_run_roundtrip_dom_refuted :
+  (forall a, exn_emb a = if a <? 256 then [Z.to_N a] else [1%N; 2%N]) /\
+  exn_bank = {| bal := [((300, 0), 200000)]; supply := [(0, 200000)] |} /\
+  exn_ws0 = mk_sworld exn_emb (exr_t 1000) exn_bank [(stream_ParamsKey, SV_Params exs_params)] /\
+  exn_hist = [ (exr_t 1010, KStr (SCreate 300 10 0 100000 100)) ] /\
+  (forall a, exg_dom a -> (1 <= length (exn_emb a) <= 255)%nat) /\
+  (forall a b, exg_dom a -> exg_dom b -> exn_emb a = exn_emb b -> a = b) /\
+  (forall a, exg_dom a -> exg_unemb (exn_emb a) = a) /\
+  Rw exg_dom exn_emb (fresh_kworld (exr_t 1000) exn_bank 10000000000000000) exn_ws0 /\
+  store_ok (sw_store exn_ws0) /\
+  ~ Forall (fun tm => kmsg_dom exg_dom (snd tm)) exn_hist /\
+  let ws1 := snd (s_run exn_ws0 exn_hist) in
+  fst (s_run exn_ws0 exn_hist) = [Ok (KRStr RNone)] /\
+  exists d ws2, S.go_ExportGenesis exg_unemb ws1 = Ok d /\
+    S.go_InitGenesis (empty_sworld exn_emb 7 (sw_bank ws1)) d = Ok (ws2, tt) /\
+    sw_store ws2 <> sw_store ws1.
+Proof. exact os_run_roundtrip_dom_refuted_spelled. Qed.
+Print Assumptions C15_onstore_str_run_roundtrip_dom_refuted.
+
+(* bank_wf is needed for the re-import to go through: a second row for (module account, denomination 0) behind the
+   first.  [balance] reads the first row - the escrow is backed, the state is inside the invariant and the store is
+   the genesis store of the run above; GetAllBalances lists both rows and InitGenesis' comparison of the module's
+   holdings with its balances fails: the document the store exports does not import over this bank *)
+Theorem C15_onstore_str_export_imports_wf_refuted :
+  exw_bank = {| bal := [((STREAM_MACC, 1), 70); ((11, 0), 1000); ((13, 0), 200000); ((STREAM_MACC, 0), 500); ((STREAM_MACC, 0), 7)];
+                supply := [(0, 201500); (1, 70)] |} /\
+  exw_w = mk_kworld (exr_t 1000) exw_bank (import_go exr_doc (fresh_str 0)) /\
+  exw_ws = mk_sworld exg_emb (exr_t 1000) exw_bank (sw_store exr_ws0) /\
+  Rw exg_dom exg_emb exw_w exw_ws /\ str_inv (exr_t 1000) (kw_bank exw_w) (kw_str exw_w) /\ store_ok (sw_store exw_ws) /\
+  ~ bank_wf (sw_bank exw_ws) /\
+  S.go_ExportGenesis exg_unemb exw_ws = Ok exr_doc /\
+  S.go_InitGenesis (empty_sworld exg_emb 7 (sw_bank exw_ws)) exr_doc = Panic stream_PANIC.
+Proof. exact os_export_imports_wf_refuted_spelled. Qed.
+Print Assumptions C15_onstore_str_export_imports_wf_refuted.
